@@ -38,7 +38,9 @@ def domain(X, Y, s):
     """every magnitude the construction touches stays in the normal range"""
     vals = [abs(v) for v in X + Y + s]
     vals += [abs(X[i + 1] - X[i]) for i in range(len(X) - 1)]
-    vals += [abs(s[i] * s[i + 1]) for i in range(len(s) - 1)]
+    # the product of adjacent secants is used only for its sign: overflowing to inf keeps it, underflowing to 0 loses it
+    if any(0 < abs(s[i] * s[i + 1]) < Fraction(1, 2 ** 960) for i in range(len(s) - 1)):
+        return False
     xm = max(abs(v) for v in X)
     vals += [xm ** 3, xm ** 3 * max([abs(v) for v in s] + [Fraction(0)])]
     for i in range(len(s)):
